@@ -158,14 +158,19 @@ Definition in_slow_start (s : sender) : bool := cwnd s <? ssthresh s.
 Definition bw_est (s : sender) (srtt : Z) : Z :=
   match bfd (cwnd s) (if srtt =? 0 then cc_timerGranularityNs else srtt) with Some b => b | None => 0 end.
 
-(** NewCubicSender(clock, rtt, stats, initialMaxDatagramSize = m, reno, qlogger); srtt0 is
-    the smoothed RTT at construction (the pacer's initial burst reads the bandwidth estimate). *)
-Definition new_sender (m : Z) (r : bool) (srtt0 : Z) : sender :=
+(** newCubicSender(clock, rtt, stats, reno, initialMaxDatagramSize = m, initialCongestionWindow = icw,
+    initialMaxCongestionWindow = imax, qlogger); srtt0 is the smoothed RTT at construction (the pacer's
+    initial burst reads the bandwidth estimate). *)
+Definition new_sender_w (m : Z) (r : bool) (icw imax srtt0 : Z) : sender :=
   let s0 := {| reno := r; ls := cc_invalidPacketNumber; la := cc_invalidPacketNumber; lc := cc_invalidPacketNumber;
-               exited := false; cwnd := cc_initialCongestionWindow * m; ssthresh := cc_maxByteCount; nacked := 0;
-               initCwnd := cc_initialCongestionWindow * m; initMaxCwnd := cc_maxCongestionWindowPackets * m;
+               exited := false; cwnd := icw; ssthresh := cc_maxByteCount; nacked := 0;
+               initCwnd := icw; initMaxCwnd := imax;
                mds := m; hs := hs_init; pc := {| p_budget := 0; p_mds := 0; p_last := 0 |} |} in
   upd s0 (ls s0) (la s0) (lc s0) (exited s0) (cwnd s0) (ssthresh s0) (nacked s0) (mds s0) (hs s0) (new_pacer (bw_est s0 srtt0)).
+
+(** NewCubicSender(clock, rtt, stats, initialMaxDatagramSize = m, reno, qlogger) — what production calls. *)
+Definition new_sender (m : Z) (r : bool) (srtt0 : Z) : sender :=
+  new_sender_w m r (cc_initialCongestionWindow * m) (cc_maxCongestionWindowPackets * m) srtt0.
 
 Definition is_cwnd_limited (s : sender) (bif : Z) : bool :=
   if bif >=? cwnd s then true
